@@ -189,11 +189,16 @@ def write_evidence(prop, tier, batch_seed, wall, agg, violations, extra):
     ev = {"property_id": prop, "tier": tier, "seed": int(batch_seed), "level": "exploration",
           "coverage": cov, "assumptions": info.get("assumptions", []), "wall_s": round(wall, 3),
           "violations": int(violations)}
-    os.makedirs(os.path.join(VERIF, "evidence"), exist_ok=True)
-    tmp = os.path.join(VERIF, "evidence", f"{prop}.json.tmp")
+    # /verif/evidence describes checks of /repo's working tree; the self-tests (mutants, seeded changes, controls) point
+    # HVSRPY_REPO at a scratch copy and must not overwrite it
+    from . import env as _env
+    evdir = os.path.join(VERIF, "evidence") if os.path.realpath(_env.repo_path()) == os.path.realpath("/repo") \
+        else os.path.join(VERIF, "replays", "evidence-scratch")
+    os.makedirs(evdir, exist_ok=True)
+    tmp = os.path.join(evdir, f"{prop}.json.tmp")
     with open(tmp, "w") as f:
         json.dump(ev, f, indent=1, sort_keys=True, default=core._default)
-    os.replace(tmp, os.path.join(VERIF, "evidence", f"{prop}.json"))
+    os.replace(tmp, os.path.join(evdir, f"{prop}.json"))
 
 
 def merge(total, part):
